@@ -28,11 +28,15 @@ PROPS = "Props/C10.v"
 EXTRACT = "extract/ExC10.v"
 OBLIGATION = "merkle-history"
 THEOREMS = ["C10_inv_init", "C10_inv_step", "C10_reachable", "C10_no_stale", "C10_swhid_fresh", "C10_path_ops_total",
-            "C10_acyclic_equiv", "C10_acyclic_no_self_reach", "C10_force_restores", "C10_inv_split",
+            "C10_chain_any_depth", "C10_chain_top_ops", "C10_acyclic_equiv", "C10_acyclic_no_self_reach", "C10_force_restores", "C10_inv_split",
             "C10_write_force_fresh", "C10_write_force_satisfiable", "C10_fresh_unique",
             "C10_delete_keeps_other_parent", "C10_no_stale_refuted_old_remove",
             "C10_falsy_hash_refuted_old", "C10_guards_satisfiable"]
-RULE = ("histories of 5-60 operations over <= 12 nodes (generic MerkleNode/MerkleLeaf subclass, and real "
+RULE = ("chains of 150, 300, 450 nested nodes (must agree exactly with the model) and of 1100, 1500 (more in the "
+        "thorough tier; the library's RecursionError there is the open known finding chain-deeper-than-recursion-limit, "
+        "everything before it is compared), built top-down or bottom-up by one macro op, with hash read / collect / "
+        "reset / forced update / swhid as the first deep operation and mutations at the bottom; then "
+        "histories of 5-60 operations over <= 12 nodes (generic MerkleNode/MerkleLeaf subclass, and real "
         "from_disk Directory/Content), seeded with the proof's case splits (child shared by two structurally "
         "equal parents, replace in place, delete then re-attach, nested path keys 3 levels deep, forced update "
         "inside a diamond, reads before/after each mutation, generic nodes whose hash is the falsy b'', a child "
@@ -62,6 +66,12 @@ ASSUMPTIONS = ["histories never create a cycle (trees and DAGs only)",
 CASE_TIMEOUT = 30
 
 KEYS = [b"a", b"b", b"c"]
+CHAIN_KEY = b"a"
+DEPTH_OK = 450          # chains up to this depth must behave exactly like the model.  The library recurses one Python
+                        # frame per level (two for Directory.invalidate_hash: the override + the base method), so
+                        # with the default recursion limit of 1000 a mutation at the bottom of a from_disk chain fails
+                        # beyond ~498 levels and every other walk beyond ~985: recorded as the open known finding
+                        # "chain-deeper-than-recursion-limit"
 MUT = ("S", "D", "U")
 
 
@@ -84,6 +94,7 @@ class Shadow:
     def __init__(self):
         self.kind, self.kids = [], []
         self.written = set()     # nodes whose data was written out of band and not yet below a forced update
+        self.nchain = 0          # nodes created by chain macro ops
 
     def new(self, k):
         self.kind.append(k)
@@ -148,7 +159,24 @@ class Shadow:
         return seen
 
     def height(self, n):
-        return 1 + max([self.height(c) for c in self.kids[n].values()], default=-1)
+        """longest path below n; iterative (chains may be deeper than the interpreter's recursion limit)"""
+        order, seen, todo = [], set(), [n]
+        while todo:
+            x = todo.pop()
+            if x not in seen:
+                seen.add(x)
+                order.append(x)
+                todo += list(self.kids[x].values())
+        h = {x: 0 for x in order}
+        changed = True
+        while changed:
+            changed = False
+            for x in reversed(order):
+                for c in self.kids[x].values():
+                    if h[x] < h[c] + 1:
+                        h[x] = h[c] + 1
+                        changed = True
+        return h[n]
 
     def dominators(self, n):
         """nodes r such that every ancestor-or-self of n is below or above r (a forced update at r restores everything)"""
@@ -164,6 +192,13 @@ class Shadow:
         t = op[0]
         if t == "N":
             self.new(op[1])
+        elif t == "X":
+            base = len(self.kind)
+            self.nchain += op[2]
+            for _ in range(op[2]):
+                self.new(op[1])
+            for i in range(op[2] - 1):
+                self.kids[base + i][CHAIN_KEY] = base + i + 1
         elif t == "W":
             self.written.add(op[1])
         elif t == "F":
@@ -189,8 +224,10 @@ class Shadow:
         """guards: handles exist, no cycle is created, update keys plain / right classes"""
         t = op[0]
         n = len(self.kind)
+        if t == "X":
+            return True
         if t == "N":
-            return n < 12
+            return n - self.nchain < 12
         if not 0 <= op[1] < n or (t == "S" and not 0 <= op[3] < n):
             return False
         if t == "S":
@@ -466,9 +503,51 @@ def gen_case(rng, world, nops, weights, nscen=14, readall=None):
     return {"world": world, "ops": ops, "by_id": 1}
 
 
-def gen(rng, tier, weights=WEIGHTS_C10, nscen=14):
-    n_cases = 1200 if tier == "quick" else 30000
+def deep_case(rng, world, depth, variant, direction):
+    """a chain of `depth` nested nodes (macro op X: handles 0 = top .. depth-1 = bottom, linked top-down or
+    bottom-up), two extra leaves, then a short history whose FIRST deep operation varies: hash read at the top,
+    collect, reset, forced update, or swhid/to_model; a mutation at the bottom after the hashes are cached walks
+    the whole chain upwards"""
+    inner, leaf = ("n", "l") if world == "generic" else ("d", "c")
+    d = H(b"x") if world == "generic" else H(b"")
+    ld = H(b"y") if world == "generic" else H(b"644:A")
+    top, bottom, l1, l2 = 0, depth - 1, depth, depth + 1
+    mid = depth // 2
+    ops = [["X", inner, depth, d, direction], ["N", leaf, ld], ["N", leaf, ld]]
+    b, cc = H(b"b"), H(b"c")
+    if variant == 0:
+        ops += [["H", top], ["S", bottom, b, l1], ["H", top], ["L", top], ["L", top], ["H", mid]]
+    elif variant == 1:
+        ops += [["L", top], ["S", bottom, b, l1], ["L", top], ["H", top], ["D", bottom, b], ["L", top]]
+    elif variant == 2:
+        ops += [["R", top], ["L", top], ["S", mid, b, l1], ["H", top], ["R", mid], ["L", top]]
+    elif variant == 3:
+        ops += [["F", top], ["W", bottom, d if world == "disk" else H(b"w")], ["F", top], ["L", top], ["H", bottom]]
+    elif variant == 4:
+        first = ["I", top] if world == "disk" else ["H", top]
+        ops += [["S", bottom, b, l1], first, ["M" if world == "disk" else "H", mid], ["U", bottom, [[cc, l2]]], ["H", top], ["L", mid]]
+    else:
+        ops += [["H", bottom], ["H", mid], ["S", bottom, b, l1], ["H", top], ["F", mid], ["L", top], ["R", top], ["L", top]]
+    return {"world": world, "ops": ops, "by_id": 1}
+
+
+def deep_cases(rng, tier):
+    below = [150, 300, DEPTH_OK] if tier == "quick" else [50, 100, 200, 300, 400, DEPTH_OK]
+    above = [1100, 1500] if tier == "quick" else [520, 700, 900, 1100, 1300, 1500, 2000, 3000]
     cases = []
+    k = 0
+    for depth in below + above:
+        for rep in range((2 if depth <= DEPTH_OK else 1) if tier == "quick" else 6):
+            world = "generic" if k % 2 == 0 else "disk"
+            variant = rng.randrange(6) if tier == "quick" else rep
+            cases.append(deep_case(rng, world, depth, variant, rng.choice(["down", "up"])))
+            k += 1
+    return cases
+
+
+def gen(rng, tier, weights=WEIGHTS_C10, nscen=14):
+    n_cases = 1000 if tier == "quick" else 30000
+    cases = deep_cases(rng, tier)
     for k in range(n_cases):
         world = "generic" if k % 2 == 0 else "disk"
         nops = rng.randrange(5, 61)
@@ -522,11 +601,22 @@ def replay_shadow(c):
     return hit, info
 
 
+def max_chain(c):
+    return max([op[2] for op in c["ops"] if op[0] == "X"], default=0)
+
+
 def nontrivial(c):
+    if max_chain(c):
+        return True
     return replay_shadow(c)[0]
 
 
 def classify(c):
+    d = max_chain(c)
+    if d:
+        first = next((op[0] for op in c["ops"] if op[0] not in "XN"), "-")
+        return ["world=" + c["world"], "deep-chain", "deep-chain:" + ("<=%d" % DEPTH_OK if d <= DEPTH_OK else ">%d" % DEPTH_OK),
+                "deep-first-op=" + first]
     hit, info = replay_shadow(c)
     n = len(c["ops"])
     ks = ["world=" + c["world"], "len=" + ("<=20" if n <= 20 else "<=60" if n <= 60 else ">60")]
@@ -614,12 +704,28 @@ _MEMO = {}     # (kind, id(node)) -> from-scratch value; emptied by impl() befor
                # the from-scratch functions read the structure only, which does not change within one operation's checks)
 
 
+def _prefill(node):
+    """memoise the from-scratch values of everything below `node`, children first, WITHOUT recursion: the structures
+    may be deeper than the interpreter's recursion limit (which is never raised around library calls)"""
+    stack = [(node, False)]
+    while stack:
+        x, expanded = stack.pop()
+        if ("m", id(x)) in _MEMO:
+            continue
+        if expanded:
+            _MEMO[("m", id(x))] = nh(mdata(x), [(name, mdata(ch), _MEMO[("m", id(ch))]) for name, ch in dict.items(x)])
+            from_disk, model = _mods()
+            if isinstance(x, from_disk.Directory):
+                _MEMO[("r", id(x))] = model.Directory(entries=tuple(scratch_entries(x))).id
+        else:
+            stack.append((x, True))
+            stack.extend((ch, False) for ch in dict.values(x) if ("m", id(ch)) not in _MEMO)
+
+
 def scratch_m(node):
     """NH-hash from scratch over the current dict structure (no cache is read)"""
-    k = ("m", id(node))
-    if k not in _MEMO:
-        _MEMO[k] = nh(mdata(node), [(name, mdata(ch), scratch_m(ch)) for name, ch in dict.items(node)])
-    return _MEMO[k]
+    _prefill(node)
+    return _MEMO[("m", id(node))]
 
 
 _MODS = []
@@ -638,10 +744,8 @@ def scratch_real(node):
     if isinstance(node, from_disk.Content):
         return node.data["sha1_git"]
     if isinstance(node, from_disk.Directory):
-        k = ("r", id(node))
-        if k not in _MEMO:
-            _MEMO[k] = model.Directory(entries=tuple(scratch_entries(node))).id
-        return _MEMO[k]
+        _prefill(node)
+        return _MEMO[("r", id(node))]
     return scratch_m(node)
 
 
@@ -688,6 +792,7 @@ def impl(c):
                              # and everything above it, until update_hash(force=True) at a node r: that restores the
                              # nodes below r and empties the caches of the nodes above r (C10_force_restores); a node
                              # neither below nor above r stays excused (it is stale, legitimately: nobody told it)
+    recursion_at, recursion_first = None, False
     loose = []               # op indexes whose output is not compared with the model (disk world, excused node: the
                              # harness token is derived from the structure there, not from the reported value)
     for idx, op in enumerate(c["ops"]):
@@ -700,6 +805,16 @@ def impl(c):
                 handle[id(nd)] = len(nodes)
                 nodes.append(nd)
                 tok = "h%d" % (len(nodes) - 1)
+            elif t == "X":
+                base = len(nodes)
+                for _ in range(op[2]):
+                    nd = mk_node(op[1], bytes.fromhex(op[3]))
+                    handle[id(nd)] = len(nodes)
+                    nodes.append(nd)
+                order = range(op[2] - 1) if op[4] == "down" else range(op[2] - 2, -1, -1)
+                for i in order:
+                    nodes[base + i][CHAIN_KEY] = nodes[base + i + 1]
+                tok = "X%d-%d" % (base, base + op[2] - 1)
             elif t == "S":
                 nodes[op[1]][bytes.fromhex(op[2])] = nodes[op[3]]
                 tok = "u"
@@ -723,7 +838,7 @@ def impl(c):
                 h = nd.hash if t == "H" else nd.update_hash(force=True)
                 if t == "F":
                     below = {id(r) for r in reach_impl(nd)}
-                    above = {id(a) for a in nodes if id(nd) in {id(r) for r in reach_impl(a)}}
+                    above = up_closure(nodes, {id(nd)})
                     dirty -= below | above
                     dirty = up_closure(nodes, dirty)
                 want = scratch_real(nd)
@@ -798,7 +913,7 @@ def impl(c):
                         bad.append("op %d %s: collect after reset_collect did not report every node" % (idx, op))
                 quiet = {k: v for k, v in quiet.items() if v == "collect"}
                 quiet[op[1]] = "collect"
-                tok = "n" + ",".join(sorted(hexs(h) for h in toks))
+                tok = ntok(sorted(hexs(h) for h in toks))
             elif t == "R":
                 nodes[op[1]].reset_collect()
                 owed |= {id(r) for r in reach_impl(nodes[op[1]])}
@@ -806,6 +921,17 @@ def impl(c):
                 tok = "u"
             else:
                 tok = "?"
+        except RecursionError as e:
+            # the library recurses one Python frame per level of the structure; what it has half done is undefined
+            # (an invalidation stopped on its way up, a collection stopped on its way down): the history ends here
+            recursion_at = idx
+            recursion_first = not bad
+            outs.append(err_tok(e))
+            if not bad:
+                bad.append("op %d %s: RecursionError - the operation needs one Python frame per level of the structure "
+                           "(deepest chain of this history: %d nodes), so no hash / collection is reported at all"
+                           % (idx, op, max_chain(c)))
+            break
         except Exception as e:   # noqa
             tok = err_tok(e)
         failed = tok.startswith("!")
@@ -834,7 +960,8 @@ def impl(c):
                                % (idx, op, i, hexs(ch), hexs(want)))
         if len(bad) > 3:
             break
-    return {"outs": outs, "oracle": bad[0] if bad else None, "loose": sorted(set(loose))}
+    return {"outs": outs, "oracle": bad[0] if bad else None, "loose": sorted(set(loose)),
+            "recursion_at": recursion_at, "recursion_first": recursion_first}
 
 
 # ------------------------------------------------------------------ model side
@@ -851,8 +978,35 @@ def enc_op(op):
     return "%s,%d" % (t, op[1])
 
 
+def expand(c):
+    """the primitive operations of a history (chain macro ops unfolded), with the number of primitives per op"""
+    prim, sizes, n = [], [], 0
+    for op in c["ops"]:
+        if op[0] == "X":
+            _, kind, depth, data, direction = op
+            sub = [["N", kind, data] for _ in range(depth)]
+            links = [["S", n + i, H(CHAIN_KEY), n + i + 1] for i in range(depth - 1)]
+            sub += links if direction == "down" else links[::-1]
+            n += depth
+        else:
+            sub = [op]
+            if op[0] == "N":
+                n += 1
+        prim += sub
+        sizes.append(len(sub))
+    return prim, sizes
+
+
 def requests(c):
-    return ["run %d %d %s" % (c.get("by_id", 1), c.get("old_truthy", 0), ";".join(enc_op(op) for op in c["ops"]))]
+    prim, _ = expand(c)
+    return ["run %d %d %s" % (c.get("by_id", 1), c.get("old_truthy", 0), ";".join(enc_op(op) for op in prim))]
+
+
+def ntok(hashes):
+    """the token of a collection: the sorted distinct hashes, abbreviated to count + digest when there are many"""
+    if len(hashes) <= 24:
+        return "n" + ",".join(hashes)
+    return "n#%d:%s" % (len(hashes), hashlib.md5(",".join(hashes).encode()).hexdigest())
 
 
 def canon_model_tok(tok):
@@ -861,7 +1015,7 @@ def canon_model_tok(tok):
         return "e" + "+".join(sorted(it.split(":")[0] + ":" + it.split(":")[2] for it in items))
     if tok.startswith("n"):
         items = [it for it in tok[1:].split(",") if it]
-        return "n" + ",".join(sorted({it.split(":")[1] for it in items}))
+        return ntok(sorted({it.split(":")[1] for it in items}))
     return tok
 
 
@@ -869,7 +1023,22 @@ def model(c, resp):
     r = resp[0]
     if not r.startswith("ok "):
         return {"error": r}
-    return {"outs": [canon_model_tok(t) for t in r[3:].split(";")]}
+    toks = [canon_model_tok(t) for t in r[3:].split(";")]
+    if not max_chain(c):
+        return {"outs": toks}
+    # fold the answers to the primitives of a chain macro op into one token
+    _, sizes = expand(c)
+    outs, i = [], 0
+    for op, k in zip(c["ops"], sizes):
+        part = toks[i:i + k]
+        i += k
+        if op[0] == "X":
+            hs = [t for t in part if t.startswith("h")]
+            ok = len(hs) == op[2] and all(t == "u" for t in part[op[2]:])
+            outs.append("X%s-%s" % (hs[0][1:], hs[-1][1:]) if ok and hs else "!expansion:" + ",".join(sorted(set(part)))[:80])
+        else:
+            outs.append(part[0] if part else "?")
+    return {"outs": outs}
 
 
 def oracle(c, ires, mres):
@@ -886,9 +1055,27 @@ def compare(c, ires, mres):
     for i, (x, y) in enumerate(zip(a, b)):
         if x != y and i not in loose:
             return "op %d %s: implementation %s, model %s" % (i, c["ops"][i], x, y)
-    if len(a) != len(b):
+    if len(a) != len(b) and ires.get("recursion_at") is None:
         return "output count differs: %d vs %d" % (len(a), len(b))
     return None
+
+
+def finding_key(c, ires, mres, verdict=None):
+    """the one recorded class: the history contains a chain deeper than DEPTH_OK, the FIRST thing that goes wrong is a
+    RecursionError raised by the library on an operation the model answers normally, and everything before agrees.
+    A RecursionError on a shallow structure, or a wrong value on a deep one, is not in the class."""
+    r = ires.get("recursion_at") if isinstance(ires, dict) else None
+    if r is None or not ires.get("recursion_first") or max_chain(c) <= DEPTH_OK:
+        return None
+    mo = (mres or {}).get("outs")
+    if not mo or r >= len(mo) or mo[r].startswith("!"):
+        return None
+    loose = set(ires.get("loose", ()))
+    if any(ires["outs"][i] != mo[i] and i not in loose for i in range(r)):
+        return None
+    if not ires["outs"][r].startswith("!Other(RecursionError"):
+        return None
+    return "chain-deeper-than-recursion-limit"
 
 
 def shrink(c):
@@ -897,7 +1084,7 @@ def shrink(c):
     n = len(ops)
     for size in (8, 4, 2, 1):
         for i in range(0, n, size):
-            rest = [op for j, op in enumerate(ops) if not (i <= j < i + size and op[0] != "N")]
+            rest = [op for j, op in enumerate(ops) if not (i <= j < i + size and op[0] not in ("N", "X"))]
             if len(rest) < n:
                 sh = Shadow()
                 ok = True
